@@ -396,3 +396,181 @@ macro_rules! open_h {
 }
 open_h!(procfs_open_unmasked, false);
 open_h!(procfs_open_masked, true);
+
+// ---------------------------------------------------------------------------
+// open_follow: the ONLY place a link is followed on purpose (C05 / C06 O6.5 / C07 O7.3)
+
+use crate::verif_kani::kernel::{scratch_get, scratch_set};
+use ::memchr as mc;
+
+impl ProcfsHandle {
+    /// stub for `ProcfsHandle::readlink`: "is it a link?" is an arbitrary answer
+    pub(crate) fn k_readlink<P: AsRef<Path>>(&self, _base: ProcfsBase, subpath: P) -> Result<PathBuf, Error> {
+        let (name, name_len) = copy_name(subpath.as_ref());
+        let k = kmut();
+        let mut c = NO_CALL;
+        c.kind = C_READLINKAT;
+        c.name = name;
+        c.name_len = name_len;
+        if k.fails() {
+            c.errno = 1;
+            k.push(c);
+            Err(any_error())
+        } else {
+            c.ok = true;
+            k.push(c);
+            Ok(PathBuf::new())
+        }
+    }
+
+    /// stub for `ProcfsHandle::open` (decided on its own: O6.4): records the
+    /// request, returns an arbitrary verified-procfs descriptor or an error
+    pub(crate) fn k_ph_open<P: AsRef<Path>, F: Into<OpenFlags>>(
+        &self,
+        _base: ProcfsBase,
+        subpath: P,
+        oflags: F,
+    ) -> Result<File, Error> {
+        let (name, name_len) = copy_name(subpath.as_ref());
+        let k = kmut();
+        let mut c = NO_CALL;
+        c.kind = C_PROC_RESOLVE;
+        c.name = name;
+        c.name_len = name_len;
+        c.flags = oflags.into().bits() as u32 as u64;
+        if k.fails() {
+            c.errno = 1;
+            k.push(c);
+            Err(any_error())
+        } else {
+            let fd = k.new_fd(O_PROC_RESOLVER, -1, false, c.flags);
+            c.ok = true;
+            c.ret_fd = fd;
+            k.push(c);
+            Ok(File::from(owned_fd(fd)))
+        }
+    }
+}
+
+fn open_follow_body(is_link: u8) {
+    install_close_model();
+    reset(3);
+    let hfd = given_fd(false);
+    let h = ProcfsHandle::verif_make(hfd, kani::any(), false, true);
+    kmut().plan[0] = is_link; // first fallible call = the readlink probe
+    let (buf, len) = sym_subpath();
+    let sub = Path::new(std::ffi::OsStr::from_bytes(&buf[..len]));
+    let bits: i32 = kani::any();
+    let res = h.open_follow(ProcfsBase::ProcThreadSelf, sub, OpenFlags::from_bits_retain(bits));
+    let (ok, retfd, kind) = match &res {
+        Ok(f) => (true, f.as_raw_fd(), None),
+        Err(e) => (false, -1, Some(cheap_kind(e))),
+    };
+    std::mem::forget(res);
+    std::mem::forget(h);
+    let k = kref();
+    assert!(!k.any_violation());
+    // reference: strip trailing slashes (a path of only slashes is "/")
+    let mut end = len;
+    while end > 0 && buf[end - 1] == b'/' {
+        end -= 1;
+    }
+    let only_slashes = end == 0 && len > 1;
+    let trailing = end < len && (end > 0 || len > 1);
+    let stripped: &[u8] = if only_slashes { &buf[..1] } else if end == 0 { &buf[..len] } else { &buf[..end] };
+    let want_flags = (if trailing { bits | libc::O_DIRECTORY } else { bits }) as u32 as u64;
+    assert!(k.ncalls >= 1 && k.log[0].kind == C_READLINKAT);
+    assert!(bytes_eq(&k.log[0].name, k.log[0].name_len, stripped, stripped.len()));
+    let nfollow = k.count(C_OPENAT);
+    if is_link == P_FAIL {
+        // not a link (or not readable as one): a plain no-follow open of the same path
+        assert!(nfollow == 0, "followed something that is not a link");
+        assert!(k.ncalls == 2 && k.log[1].kind == C_PROC_RESOLVE);
+        assert!(bytes_eq(&k.log[1].name, k.log[1].name_len, stripped, stripped.len()));
+        assert!(k.log[1].flags == want_flags);
+        assert!(ok == k.log[1].ok);
+        if ok {
+            assert!(retfd == k.log[1].ret_fd);
+        }
+    } else {
+        let r = ref_split(stripped);
+        if !r.has_base {
+            assert!(!ok && nfollow == 0 && k.ncalls == 1);
+            assert!(kind == Some(ErrorKind::InvalidArgument));
+        } else {
+            // parent opened through the verified no-follow path, as a directory handle
+            assert!(k.ncalls >= 2 && k.log[1].kind == C_PROC_RESOLVE);
+            assert!(name_is_ref_dir(&k.log[1].name, k.log[1].name_len, stripped, &r));
+            assert!(k.log[1].flags == (libc::O_PATH | libc::O_DIRECTORY) as u32 as u64);
+            if !k.log[1].ok {
+                assert!(!ok && nfollow == 0);
+            } else {
+                let parent = k.log[1].ret_fd;
+                if nfollow > 0 {
+                    assert!(nfollow == 1);
+                    // the one following open: (verified parent, last component), caller's flags
+                    let c = k.log[k.ncalls - 1];
+                    assert!(c.kind == C_OPENAT && c.dirfd == parent);
+                    assert!(name_is_ref_base(&c.name, c.name_len, stripped, &r));
+                    assert!(single_component(&c.name, c.name_len));
+                    assert!(c.flags == want_flags && c.mode == 0);
+                    // ... and only after the link dentry itself was found on the parent's mount
+                    let e = k.ent(parent).unwrap();
+                    assert!(e.statx_seen);
+                    let (lfd, lid, lmask) = crate::verif_kani::kernel::last_named_mnt();
+                    assert!(lfd == parent, "mount id of the link itself was never compared");
+                    let link_mnt = if lmask & 0x5000 != 0 { Some(lid) } else { None };
+                    let parent_mnt = if e.statx_ok && e.mnt_mask & 0x5000 != 0 { Some(e.mnt_id) } else { None };
+                    assert!(named_statx_ok() || parent_mnt.is_none());
+                    if named_statx_ok() {
+                        assert!(link_mnt == parent_mnt, "link on a different mount was followed");
+                    }
+                    assert!(ok == c.ok);
+                    if ok {
+                        assert!(retfd == c.ret_fd);
+                    }
+                } else {
+                    assert!(!ok);
+                }
+            }
+        }
+    }
+    // C11: handle + returned fd only (the parent handle is closed)
+    assert!(k.n_open() == 1 + if ok { 1 } else { 0 });
+    kani::cover!(ok && nfollow == 1, "link followed");
+    kani::cover!(ok && nfollow == 0, "plain open");
+    kani::cover!(!ok && kind == Some(ErrorKind::OsError(Some(libc::EXDEV))), "over-mounted link refused");
+    kani::cover!(trailing, "trailing slash implies O_DIRECTORY");
+}
+
+fn named_statx_ok() -> bool {
+    let k = kref();
+    let mut ok = false;
+    let mut i = 0;
+    while i < MAX_CALLS {
+        if i < k.ncalls && k.log[i].kind == C_STATX && k.log[i].name_len > 0 && k.log[i].ok {
+            ok = true;
+        }
+        i += 1;
+    }
+    ok
+}
+
+macro_rules! of_h {
+    ($name:ident, $l:expr) => {
+        #[kani::proof]
+        #[kani::unwind(8)]
+        #[kani::stub(crate::procfs::ProcfsHandle::readlink, crate::procfs::ProcfsHandle::k_readlink)]
+        #[kani::stub(crate::procfs::ProcfsHandle::open, crate::procfs::ProcfsHandle::k_ph_open)]
+        #[kani::stub(crate::syscalls::statx, k_statx)]
+        #[kani::stub(crate::syscalls::openat_follow, k_openat_follow)]
+        #[kani::stub(mc::memchr::memchr, k_memchr)]
+        #[kani::stub(mc::memchr::memrchr, k_memrchr)]
+        #[kani::stub(alloc::fmt::format, k_format)]
+        fn $name() {
+            open_follow_body($l);
+        }
+    };
+}
+of_h!(procfs_open_follow_link, P_OK);
+of_h!(procfs_open_follow_notlink, P_FAIL);
